@@ -60,6 +60,8 @@ def run(ctx) -> None:
   ctx.rule('R4', 'designer policies write their state only under their reserved namespace root', 1)
   ctx.rule('R5', 'KeyValue.ns is written from Namespace.encode() and read through Namespace.decode()', 2)
   ctx.import_rules('C04', {'R1', 'R4'}, 'R7', 'no lost metadata updates: whole-row read-modify-writes and metadata merges share a lock region')
+  ctx.rule('R8', 'whether a metadata update addresses a trial is decided by presence (`is None` / HasField), never by the truthiness '
+           'of the trial id (trial id 0 is a valid id)', 1)
   ctx.rule('R6', 'algorithm-issued metadata deltas are always forwarded to the datastore; '
            '_assign_value tests str, then Any, then packs other messages', 3)
   r1_codec(ctx)
@@ -68,6 +70,7 @@ def run(ctx) -> None:
   r4_policy_ns(ctx)
   r5_pairing(ctx)
   r6_forwarding(ctx)
+  r8_trial_id_presence(ctx)
 
 
 # ----------------------------------------------------------------------- R1
@@ -291,6 +294,40 @@ def r4_policy_ns(ctx) -> None:
 
 
 # ----------------------------------------------------------------------- R5
+def r8_trial_id_presence(ctx) -> None:
+  n = 0
+  for q in ('vizier._src.pyvizier.oss.metadata_util', 'vizier._src.pyvizier.oss.proto_converters'):
+    mi = ctx.index.need_module(q)
+    fns = list(mi.functions.values()) + [m for ci in mi.classes.values() if 'Metadata' in ci.name for m in ci.methods.values()]
+    for fi in fns:
+      uses_id = any(isinstance(x, (ast.Name, ast.Attribute)) and 'trial_id' in (x.id if isinstance(x, ast.Name) else x.attr) for x in ast.walk(fi.node))
+      if not uses_id:
+        continue
+      n += 1
+      bad = None
+      for x in ast.walk(fi.node):
+        t = x.test if isinstance(x, (ast.If, ast.IfExp, ast.While)) else None
+        if t is None:
+          continue
+        parts = t.values if isinstance(t, ast.BoolOp) else [t]
+        for p_ in parts:
+          q_ = p_.operand if isinstance(p_, ast.UnaryOp) and isinstance(p_.op, ast.Not) else p_
+          nm = q_.id if isinstance(q_, ast.Name) else q_.attr if isinstance(q_, ast.Attribute) else ''
+          if 'trial_id' in nm:
+            # a string-typed proto field `x.trial_id` read from the wire is '' when unset: truthiness is presence there
+            if isinstance(q_, ast.Attribute) and isinstance(q_.value, ast.Name) and any(
+                isinstance(a, ast.arg) and a.arg == q_.value.id and a.annotation is not None and 'pb2' in unparse(a.annotation, 0)
+                for a in ast.walk(fi.node)):
+              continue
+            bad = bad or p_
+      ctx.check(bad is None, 'R8', f'{fi.qualname.rsplit(".", 2)[-1] if False else fi.name}: trial id presence', fi.node,
+                '`is None` / HasField', f'`{unparse(bad, 40) if bad is not None else ""}` decides by truthiness whether an update addresses a trial: '
+                'metadata written for trial id 0 is sent as study-level metadata and overwrites the study\'s entry of the same key',
+                construct=f'{fi.name}:trial-id-truthiness', func=fi.qualname)
+  if n < 1:
+    raise AnalysisError('no metadata function handling a trial id found')
+
+
 def r5_pairing(ctx) -> None:
   files = ['vizier/_src/pyvizier/oss/metadata_util.py', 'vizier/_src/pyvizier/oss/proto_converters.py',
            'vizier/_src/pyvizier/oss/study_config.py']
@@ -328,7 +365,7 @@ def r5_pairing(ctx) -> None:
                         'wire string decoded with Namespace.decode',
                         'a KeyValue.ns string is used as a namespace without Namespace.decode',
                         construct=x, func=fi.qualname)
-  if n_w < 2 or n_r < 1:
+  if n_w < 1 or n_r < 1:
     raise AnalysisError(f'namespace wire sites recognised: {n_w} writers, {n_r} readers')
 
 
